@@ -120,6 +120,9 @@ type Cluster struct {
 	Untokenised map[byte]int
 	// SystemReads counts non-control reads of system.local/peers that reached a backend (C09)
 	Forwarded []string
+	// HoldOptions parks the replies to OPTIONS on started connections (heartbeats) until ReleaseOptions
+	HoldOptions bool
+	heldOpts    []*held
 }
 
 type Host struct {
@@ -343,6 +346,24 @@ func (c *Cluster) Release(token string) bool {
 	hd.conn.replyMsg(hd.version, hd.stream, hd.conn.echo(hd.token, hd.n), nil)
 	return true
 }
+
+// HeldOptions returns how many heartbeat replies are parked.
+func (c *Cluster) HeldOptions() int { c.mu.Lock(); defer c.mu.Unlock(); return len(c.heldOpts) }
+
+// ReleaseOptions answers every parked OPTIONS (late heartbeat replies) and stops parking.
+func (c *Cluster) ReleaseOptions() int {
+	c.mu.Lock()
+	hs := c.heldOpts
+	c.heldOpts = nil
+	c.HoldOptions = false
+	c.mu.Unlock()
+	for _, h := range hs {
+		h.conn.replyMsg(h.version, h.stream, &message.Supported{Options: map[string][]string{"CQL_VERSION": {c.CQLVersion}, "COMPRESSION": {"lz4", "snappy"}}}, nil)
+	}
+	return len(hs)
+}
+
+func (c *Cluster) SetHoldOptions(b bool) { c.mu.Lock(); c.HoldOptions = b; c.mu.Unlock() }
 
 func (c *Cluster) ReleaseAll() {
 	for _, t := range c.HeldTokens() {
@@ -778,6 +799,14 @@ func (c *Conn) handle(f *wire.Frame) bool {
 
 	switch m := body.Message.(type) {
 	case *message.Options:
+		cl.mu.Lock()
+		if cl.HoldOptions && c.Started {
+			cl.heldOpts = append(cl.heldOpts, &held{conn: c, stream: f.Stream, version: v})
+			cl.cond.Broadcast()
+			cl.mu.Unlock()
+			return true
+		}
+		cl.mu.Unlock()
 		c.replyMsg(v, f.Stream, &message.Supported{Options: map[string][]string{"CQL_VERSION": {cl.CQLVersion}, "COMPRESSION": {"lz4", "snappy"}}}, nil)
 		return true
 	case *message.Startup:
